@@ -1311,4 +1311,262 @@ theorem wire_epoch {cap : Nat} {s : S α} (hR : Reach cap s) : ∀ p ∈ s.sentE
 /-- what waits in the channel was built in the current epoch: a reconnect leaves nothing of the previous stream behind -/
 theorem queue_epoch {cap : Nat} {s : S α} (hR : Reach cap s) : ∀ e ∈ s.queueEp, e = s.epoch := hR.ep.tags
 
+/-! ## Termination: the program cannot run for ever by itself -/
+
+/-- sum of `f 0 … f (n-1)` -/
+def psum (f : Nat → Nat) : Nat → Nat
+  | 0 => 0
+  | n + 1 => psum f n + f n
+
+theorem psum_congr {f g : Nat → Nat} {n : Nat} (h : ∀ i, i < n → f i = g i) : psum f n = psum g n := by
+  induction n with
+  | zero => rfl
+  | succ n ih =>
+    simp only [psum]
+    rw [ih (fun i hi => h i (by omega)), h n (by omega)]
+
+/-- changing one summand -/
+theorem psum_update (f : Nat → Nat) (i v : Nat) (n : Nat) (hi : i < n) :
+    psum (fun j => if j = i then v else f j) n + f i = psum f n + v := by
+  induction n with
+  | zero => omega
+  | succ n ih =>
+    simp only [psum]
+    by_cases h : i = n
+    · subst h
+      have : psum (fun j => if j = i then v else f j) i = psum f i :=
+        psum_congr (fun j hj => by simp; intro e; omega)
+      simp [this]; omega
+    · have := ih (by omega)
+      have hn : (if n = i then v else f n) = f n := by simp; intro e; omega
+      rw [hn]; omega
+
+def wP : PPC α → Nat
+  | .idle => 0 | .want _ => 5 | .locked _ => 4 | .done => 0
+
+def wS (s : S α) : Nat :=
+  match s.spc with
+  | .sel => if s.closed then 1 else 0
+  | .sending _ _ => if s.closed then 2 else 1
+  | .adoptWait _ => if s.closed then 2 else 1
+  | .exited => 0
+
+def wR : RPC α → Nat
+  | .recv _ => 0 | .ackWant _ _ => 5 | .ackLocked _ _ => 4 | .reconnWait _ => 4 | .publish _ => 3 | .stopped => 0
+
+/-- the work the program still has to do by itself, given that producers `≥ n` are not under way -/
+def work (n : Nat) (s : S α) : Nat :=
+  psum (fun i => wP (s.pc i)) n + 3 * s.queue.length + (if s.streamCh.isSome then 2 else 0) + wS s + wR s.rpc
+
+/-- producers `≥ n` are not under way -/
+def Supp (n : Nat) (s : S α) : Prop := ∀ i, n ≤ i → s.pc i = .idle ∨ s.pc i = .done
+
+
+theorem lt_of_active {n : Nat} {s : S α} (hS : Supp n s) {i : Nat} (h : s.pc i ≠ .idle ∧ s.pc i ≠ .done) : i < n := by
+  cases Nat.lt_or_ge i n with
+  | inl h' => exact h'
+  | inr h' => rcases hS i h' with e | e <;> simp [e] at h
+
+theorem psum_setPc (n : Nat) (s : S α) (i : Nat) (p : PPC α) (hi : i < n) :
+    psum (fun j => wP ((setPc s i p).pc j)) n + wP (s.pc i) = psum (fun j => wP (s.pc j)) n + wP p := by
+  have := psum_update (fun j => wP (s.pc j)) i (wP p) n hi
+  have e : (fun j => wP ((setPc s i p).pc j)) = (fun j => if j = i then wP p else wP (s.pc j)) := by
+    funext j; simp only [setPc]; split <;> rfl
+  rw [e]; exact this
+
+@[simp] theorem doEnq_pcfun {cap : Nat} (s : S α) (r : α) (t : Nat) (j : Nat) : (doEnq cap s r t).pc j = s.pc j := by
+  unfold doEnq; split <;> rfl
+@[simp] theorem doEnq_streamCh' {cap : Nat} (s : S α) (r : α) (t : Nat) : (doEnq cap s r t).streamCh = s.streamCh := by
+  unfold doEnq; split <;> rfl
+theorem doEnq_qlen {cap : Nat} (s : S α) (r : α) (t : Nat) : (doEnq cap s r t).queue.length ≤ s.queue.length + 1 := by
+  unfold doEnq; split <;> simp
+
+theorem work_setPc {n : Nat} {s s' : S α} {i : Nat} {p : PPC α} (q' : Nat) (hi : i < n) (hpc : s'.pc = (setPc s i p).pc)
+    (hq : s'.queue.length = q') (hch : s'.streamCh = s.streamCh) (hspc : s'.spc = s.spc) (hcl : s'.closed = s.closed) (hr : s'.rpc = s.rpc) :
+    ∃ W, work n s' = W ∧ W + wP (s.pc i) + 3 * s.queue.length = work n s + wP p + 3 * q' := by
+  have e1 : (fun j => wP (s'.pc j)) = (fun j => wP ((setPc s i p).pc j)) := by rw [hpc]
+  have e2 : wS s' = wS s := by unfold wS; rw [hspc, hcl]
+  have := psum_setPc n s i p hi
+  refine ⟨_, rfl, ?_⟩
+  unfold work
+  rw [e1, e2, hch, hr, hq]
+  omega
+
+/-- **every step the program takes by itself is progress**: the remaining work strictly decreases -/
+theorem internal_step_decreases {cap n : Nat} {s s' : S α} {l : Lbl α} (hS : Supp n s) (hi : l.internal = true)
+    (h : step cap s l = some s') : work n s' < work n s ∧ Supp n s' := by
+  cases l with
+  | pStart _ _ | rResp _ | rFail | rAuthFail | stall | resume => simp [Lbl.internal] at hi
+  | pLock i =>
+    simp only [step] at h
+    split at h <;> simp at h
+    next r hp hc =>
+    subst h
+    have hin : i < n := lt_of_active hS (by simp [hp])
+    obtain ⟨W, hW, hEq⟩ := work_setPc (n := n) (s := s) (s' := { (setPc s i (.locked r)) with cmu := some (.prod i), lockEp := fun j => if j = i then s.epoch else s.lockEp j })
+      (p := .locked r) s.queue.length hin rfl rfl rfl rfl rfl rfl
+    rw [hp] at hEq
+    refine ⟨?_, ?_⟩
+    · rw [hW]; simp only [wP] at hEq; omega
+    · intro j hj; have : j ≠ i := by omega
+      simp [setPc, this]; exact hS j hj
+  | pEnq i =>
+    simp only [step] at h
+    split at h <;> try (simp at h; done)
+    next r hp =>
+    split at h <;> simp at h
+    subst h
+    have hin : i < n := lt_of_active hS (by simp [hp])
+    have hq := doEnq_qlen (cap := cap) s r (s.lockEp i)
+    obtain ⟨W, hW, hEq⟩ := work_setPc (n := n) (s := s) (s' := { (setPc (doEnq cap s r (s.lockEp i)) i .done) with cmu := none })
+      (p := .done) (doEnq cap s r (s.lockEp i)).queue.length hin (by funext j; simp [setPc]) rfl (by simp [setPc]) (by simp [setPc]) (by simp [setPc]) (by simp [setPc])
+    rw [hp] at hEq
+    refine ⟨?_, ?_⟩
+    · rw [hW]; simp only [wP] at hEq; omega
+    · intro j hj; have : j ≠ i := by omega
+      simp [setPc, this]; exact hS j hj
+  | sTakeReq =>
+    simp only [step] at h
+    split at h <;> try (simp at h; done)
+    next r rest hs hq =>
+    split at h <;> simp at h <;> subst h
+    · refine ⟨?_, hS⟩
+      simp only [work, wS, hs, hq]; cases hcl : s.closed <;> simp <;> omega
+    · refine ⟨?_, hS⟩
+      simp only [work, wS, hs, hq]; cases hcl : s.closed <;> simp <;> omega
+  | sSendDone =>
+    simp only [step] at h
+    split at h <;> try (simp at h; done)
+    next r k hs =>
+    split at h <;> try (simp at h; done)
+    split at h <;> simp at h <;> subst h
+    · refine ⟨?_, hS⟩
+      simp only [work, wS, hs]; cases hcl : s.closed <;> simp <;> omega
+    · refine ⟨?_, hS⟩
+      simp only [work, wS, hs]; cases hcl : s.closed <;> simp <;> omega
+  | sTakeStream =>
+    simp only [step] at h
+    split at h <;> simp at h
+    next k hs hch =>
+    subst h
+    refine ⟨?_, hS⟩
+    simp only [work, wS, hs, hch]; cases hcl : s.closed <;> simp <;> omega
+  | sAdopt batch =>
+    simp only [step] at h
+    split at h <;> try (simp at h; done)
+    next k hs hc =>
+    split at h <;> simp at h <;> subst h
+    · refine ⟨?_, hS⟩
+      simp only [work, wS, hs]; cases hcl : s.closed <;> simp <;> omega
+    · refine ⟨?_, hS⟩
+      simp only [work, wS, hs]; cases hcl : s.closed <;> simp <;> omega
+  | sExit =>
+    simp only [step] at h
+    split at h <;> try (simp at h; done)
+    next hs =>
+    split at h <;> simp at h
+    next hc =>
+    subst h
+    refine ⟨?_, hS⟩
+    simp only [work, wS, hs, hc]; simp
+  | rAckLock =>
+    simp only [step] at h
+    split at h <;> simp at h
+    next r k hr hc =>
+    subst h
+    refine ⟨?_, hS⟩
+    simp only [work, wS, wR, hr]; simp
+  | rAckEnq =>
+    simp only [step] at h
+    split at h <;> try (simp at h; done)
+    next r k hr =>
+    split at h <;> simp at h
+    subst h
+    have hq := doEnq_qlen (cap := cap) s r s.rLockEp
+    refine ⟨?_, ?_⟩
+    · simp only [work, wS, wR, hr] at *; simp at *; omega
+    · intro j hj; simp; exact hS j hj
+  | rDrain =>
+    simp only [step] at h
+    split at h <;> simp at h
+    next k hr hc =>
+    subst h
+    refine ⟨?_, hS⟩
+    simp only [work, wS, wR, hr]; simp; omega
+  | rPublish =>
+    simp only [step] at h
+    split at h <;> simp at h
+    next k hr hch =>
+    subst h
+    refine ⟨?_, hS⟩
+    simp only [work, wS, wR, hr, hch]; simp; omega
+
+
+theorem supp_mono {n m : Nat} {s : S α} (h : Supp n s) (hnm : n ≤ m) : Supp m s := fun i hi => h i (by omega)
+
+theorem supp_step {cap n : Nat} {s s' : S α} {l : Lbl α} (hS : Supp n s) (h : step cap s l = some s') :
+    ∃ m, n ≤ m ∧ Supp m s' := by
+  by_cases hi : l.internal = true
+  · exact ⟨n, Nat.le_refl n, (internal_step_decreases hS hi h).2⟩
+  · cases l with
+    | pLock _ | pEnq _ | sTakeReq | sSendDone | sTakeStream | sAdopt _ | sExit | rAckLock | rAckEnq | rDrain | rPublish =>
+      simp [Lbl.internal] at hi
+    | pStart i r =>
+      simp only [step] at h
+      split at h <;> simp at h
+      subst h
+      refine ⟨max n (i + 1), Nat.le_max_left _ _, ?_⟩
+      intro j hj
+      have h1 : n ≤ j := by omega
+      have h2 : j ≠ i := by omega
+      simp [setPc, h2]; exact hS j h1
+    | rResp r => simp only [step] at h; split at h <;> simp at h; subst h; exact ⟨n, Nat.le_refl n, hS⟩
+    | rFail => simp only [step] at h; split at h <;> simp at h; subst h; exact ⟨n, Nat.le_refl n, hS⟩
+    | rAuthFail => simp only [step] at h; split at h <;> simp at h; subst h; exact ⟨n, Nat.le_refl n, hS⟩
+    | stall => simp only [step] at h; simp at h; subst h; exact ⟨n, Nat.le_refl n, hS⟩
+    | resume => simp only [step] at h; simp at h; subst h; exact ⟨n, Nat.le_refl n, hS⟩
+
+/-- in every reachable state only finitely many producers are under way -/
+theorem supp_reachable {cap : Nat} {ls : List (Lbl α)} : ∀ {s s' : S α} {n : Nat}, Supp n s → run cap s ls = some s' → ∃ m, Supp m s' := by
+  induction ls with
+  | nil => intro s s' n hS h; simp [run] at h; subst h; exact ⟨n, hS⟩
+  | cons l ls ih =>
+    intro s s' n hS h
+    simp only [run] at h
+    split at h
+    · next s1 h1 =>
+      obtain ⟨m, _, hm⟩ := supp_step hS h1
+      exact ih hm h
+    · simp at h
+
+theorem supp_init : Supp 0 (init : S α) := fun _ _ => Or.inl rfl
+
+/-- **the program cannot run for ever by itself**: a run of steps of the program alone is no longer than the work that
+was outstanding when it started -/
+theorem internal_run_bounded {cap n : Nat} : ∀ (ls : List (Lbl α)) {s s' : S α}, Supp n s → (∀ l ∈ ls, l.internal = true) →
+    run cap s ls = some s' → ls.length + work n s' ≤ work n s ∧ Supp n s' := by
+  intro ls
+  induction ls with
+  | nil => intro s s' hS _ h; simp [run] at h; subst h; exact ⟨by simp, hS⟩
+  | cons l ls ih =>
+    intro s s' hS hall h
+    simp only [run] at h
+    split at h
+    · next s1 h1 =>
+      obtain ⟨hlt, hS1⟩ := internal_step_decreases hS (hall l (by simp)) h1
+      obtain ⟨hle, hS'⟩ := ih hS1 (fun l' hl' => hall l' (by simp [hl'])) h
+      exact ⟨by simp; omega, hS'⟩
+    · simp at h
+
+/-- **left to itself the client comes to rest, quiescent or in S12** — from every reachable state, every execution of the
+program alone is finite (bounded by the outstanding work), and the state in which nothing moves any more is, unless the
+transport is stalled, the quiescent state or the S12 deadlock: there is no livelock and no other deadlock -/
+theorem comes_to_rest {cap : Nat} (hcap : 0 < cap) {s : S α} (hR : Reach cap s) {n : Nat} (hS : Supp n s)
+    (ls : List (Lbl α)) (hall : ∀ l ∈ ls, l.internal = true) {s' : S α} (h : run cap s ls = some s') :
+    ls.length ≤ work n s ∧ (s'.stalled = false → Stuck cap s' → Quiescent s' ∨ S12 cap s') := by
+  refine ⟨by have := (internal_run_bounded ls hS hall h).1; omega, ?_⟩
+  intro hns hst
+  exact stuck_cases hcap (reach_run hR h).inv hns hst
+
+
 end XdsVerif.Flow
